@@ -67,6 +67,12 @@ pub enum Radix {
     Bin,
     Oct,
     Char,
+    /// the same with leading zeros / upper-case digits
+    HexDollarLead0,
+    HexDollarUpper,
+    Hex0xLead0,
+    BinLead0,
+    OctLead0,
 }
 
 #[derive(Clone, PartialEq, Eq, Debug, Hash)]
@@ -108,6 +114,11 @@ pub fn render_num(v: i64, r: Radix) -> String {
         Radix::Bin => format!("0b{:b}", v),
         Radix::Oct => format!("0{:o}", v),
         Radix::Char => format!("'{}'", (v as u8) as char),
+        Radix::HexDollarLead0 => format!("$0{:x}", v),
+        Radix::HexDollarUpper => format!("${:X}", v),
+        Radix::Hex0xLead0 => format!("0x00{:x}", v),
+        Radix::BinLead0 => format!("0b00{:b}", v),
+        Radix::OctLead0 => format!("00{:o}", v),
     }
 }
 
